@@ -21,4 +21,5 @@ print('| seeded change | property | what it does | needs to manifest | detected 
 print('|---|---|---|---|---|---|')
 for r in rows:
     print('| ' + ' | '.join(r) + ' |')
-print(f'\n{sum(1 for r in rows if r[4]=="yes")} of {len(rows)} detected; {sum(1 for r in rows if r[4].startswith("n/a"))} superseded by a later fix of /repo (C08_m1: equivalent to the unchanged code since fix 17aeac7).')
+print(f'\n{sum(1 for r in rows if r[4]=="yes")} of {len(rows)} detected; {sum(1 for r in rows if r[4].startswith("n/a"))} superseded by a later fix of /repo ('
+      + '; '.join(r[0] for r in rows if r[4].startswith("n/a")) + ': no longer a violation on the repaired tree, reason in the `superseded` field of their meta.json).')
